@@ -40,6 +40,7 @@ pub fn atoms() -> Vec<(String, Val)> {
     add("str:high", Val::Str(vec![0x80, 0xff]));
     add("str:NUL", Val::Str(vec![0]));
     add("str:ctl-then-digit", Val::Str(vec![1, b'8', 0o33, b'7']));
+    add("str:ctl-then-8-9", Val::Str(vec![7, b'9', 0o10, b'8', b'\r', b'9', 0o77, b'8']));
     add("str:z", Val::str("z"));
     add("str:delims", Val::str("%<>[]{}/ x"));
     add("name:Name", Val::name("Name"));
